@@ -4,10 +4,11 @@
    parser (`parse_float`) and the float root `pow_root v n = int(pow(v, 1.0/n))` are parameters; tools/props/C18.py
    supplies what the implementation computes for them and compares whole exports.
 
-   FINDING F8.  `all_variables_largest_k pow_root` ("k values per input where k is the largest integer with
-   k^inputs <= v") holds exactly of the oracles that agree with the integer root (C18_all_variables_largest_k_iff);
-   it is refuted by any oracle with pow_root 64 3 = 3, which is what libm's pow(64, 1/3) = 3.9999999999999996
-   gives in the pinned code (C18_all_variables_k_refuted_if; the concrete (v, n) are reported by the harness). *)
+   F8 (repaired in /repo by `fix: FldExporter under-counted the grid for perfect powers in the AllVariables scope`):
+   the float root int(round(pow(v, 1/n))) is now only the starting point of two integer correction loops; the model
+   mirrors them and C18_all_variables_k holds for EVERY answer of the float oracle.  The formula before the repair,
+   -1 + max(1, int(pow(v, 1/n))), is kept as `resolution_unrepaired`; C18_unrepaired_refuted_if shows it is false
+   of any oracle with pow_root 64 3 = 3 (libm: pow(64, 1/3) = 3.9999999999999996). *)
 From Coq Require Import ZArith Bool List String Ascii Sorted Reals PrimFloat.
 From VF Require Import Num NumR NumF Core Fld FldProofs.
 Import ListNotations.
@@ -79,20 +80,34 @@ Theorem C18_kroot_spec : forall v n, 0 <= v -> (1 <= n)%nat ->
 Proof. exact kroot_spec. Qed.
 Print Assumptions C18_kroot_spec.
 
-(* with the documented integer root: k = max 1 (kroot v n) = kroot v n values per input, the largest k with k^n <= v *)
-Theorem C18_all_variables_k : forall v n, 1 <= v -> (1 <= n)%nat ->
-  exists res, resolution kroot AllVariables v n = Ok res /\
+(* all variables = v: k values per input where k is the largest integer with k^inputs <= v; unconditional in the
+   float root oracle (any starting point of the correction loops, even a wildly wrong one) *)
+Theorem C18_all_variables_k : forall pow_root v n, 1 <= v -> (1 <= n)%nat ->
+  exists res, resolution pow_root AllVariables v n = Ok res /\
     let k := values_per_input res in
-    k = Z.max 1 (kroot v n) /\ k = kroot v n /\
+    k = kroot v n /\ 1 <= k /\
     k ^ Z.of_nat n <= v < (k + 1) ^ Z.of_nat n /\
     (forall j, 0 <= j -> j ^ Z.of_nat n <= v -> j <= k).
-Proof. exact all_variables_k_kroot. Qed.
+Proof. exact all_variables_k. Qed.
 Print Assumptions C18_all_variables_k.
 
-Theorem C18_all_variables_rows_count : forall (T : Type) (N : Num T) v (e : engine T),
+Theorem C18_all_variables_resolution : forall pow_root v n, 1 <= v -> (1 <= n)%nat ->
+  resolution pow_root AllVariables v n = Ok (kroot v n - 1).
+Proof. exact resolution_all. Qed.
+Print Assumptions C18_all_variables_resolution.
+
+(* the fuel given to the two correction loops suffices: their loop conditions are false of the results *)
+Theorem C18_root_loops_terminate : forall n v root, (1 <= n)%nat -> 1 <= root ->
+  (let r := root_down (Z.to_nat root) v n root in
+   1 <= r <= root /\ ((1 <? r) && (v <? r ^ Z.of_nat n) = false)) /\
+  ((kroot_up (Z.to_nat v) v n root + 1) ^ Z.of_nat n <=? v) = false.
+Proof. intros n v root Hn Hr. split; [apply root_down_exit; exact Hr | apply root_up_exit; assumption]. Qed.
+Print Assumptions C18_root_loops_terminate.
+
+Theorem C18_all_variables_rows_count : forall (T : Type) (N : Num T) pow_root v (e : engine T),
   1 <= v -> e_inputs e <> [] ->
   let n := List.length (e_inputs e) in
-  exists rows, scope_inputs kroot AllVariables v e (fun _ => true) = Ok rows /\
+  exists rows, scope_inputs pow_root AllVariables v e (fun _ => true) = Ok rows /\
     Z.of_nat (List.length rows) = kroot v n ^ Z.of_nat n /\ kroot v n ^ Z.of_nat n <= v.
 Proof. exact all_variables_rows_count. Qed.
 Print Assumptions C18_all_variables_rows_count.
@@ -101,22 +116,17 @@ Theorem C18_all_variables_no_inputs : forall pow_root v, resolution pow_root All
 Proof. reflexivity. Qed.
 Print Assumptions C18_all_variables_no_inputs.
 
-(* the full statement, for the root the implementation really uses (a parameter here) *)
-Definition C18_all_variables_largest_k_statement (pow_root : Z -> nat -> Z) : Prop :=
-  forall v n res, 1 <= v -> (1 <= n)%nat -> resolution pow_root AllVariables v n = Ok res ->
-    let k := values_per_input res in k ^ Z.of_nat n <= v < (k + 1) ^ Z.of_nat n.
-
-Theorem C18_all_variables_largest_k_iff : forall pow_root,
-  C18_all_variables_largest_k_statement pow_root <->
+(* the formula before the repair: right exactly when the truncated float root is the integer root; refuted at (64, 3) *)
+Theorem C18_unrepaired_iff : forall pow_root,
+  unrepaired_largest_k pow_root <->
   (forall v n, 1 <= v -> (1 <= n)%nat -> Z.max 1 (pow_root v n) = kroot v n).
-Proof. exact all_variables_largest_k_iff. Qed.
-Print Assumptions C18_all_variables_largest_k_iff.
+Proof. exact unrepaired_largest_k_iff. Qed.
+Print Assumptions C18_unrepaired_iff.
 
-(* F8: false of the faithful oracle at the perfect cube 64 with 3 inputs (3 values per input, 27 rows, not 4 and 64) *)
-Theorem C18_all_variables_k_refuted_if : forall pow_root,
-  pow_root 64 3%nat = 3 -> ~ C18_all_variables_largest_k_statement pow_root.
-Proof. exact all_variables_largest_k_refuted_if. Qed.
-Print Assumptions C18_all_variables_k_refuted_if.
+Theorem C18_unrepaired_refuted_if : forall pow_root,
+  pow_root 64 3%nat = 3 -> ~ unrepaired_largest_k pow_root.
+Proof. exact unrepaired_largest_k_refuted_if. Qed.
+Print Assumptions C18_unrepaired_refuted_if.
 
 (* ---- rows and header.  By construction of the model from `outputs_of` (the engine's batch outputs for the
         matrix it was given): row r = selected inputs of grid point r ++ selected outputs for that point, one row per point *)
@@ -208,13 +218,22 @@ Example C18_kroot_example :
 Proof. vm_compute. repeat split; reflexivity. Qed.
 Print Assumptions C18_kroot_example.
 
-(* the refutation hypothesis is inhabited: an oracle that is the integer root except at (64, 3) *)
-Example C18_refuted_example :
-  ~ C18_all_variables_largest_k_statement (fun v n => if (v =? 64) && Nat.eqb n 3 then 3 else kroot v n).
-Proof. apply C18_all_variables_k_refuted_if. reflexivity. Qed.
-Print Assumptions C18_refuted_example.
+(* the correction loops at work: starting points that are too small, too large, non-positive -- perfect cube 64, 3 inputs *)
+Example C18_root_correction_example :
+  resolution (fun _ _ => 3) AllVariables 64 3 = Ok 3 /\ resolution (fun _ _ => 4) AllVariables 64 3 = Ok 3 /\
+  resolution (fun _ _ => 9) AllVariables 64 3 = Ok 3 /\ resolution (fun _ _ => -7) AllVariables 64 3 = Ok 3 /\
+  resolution (fun _ _ => 3) AllVariables 63 3 = Ok 2 /\ resolution (fun _ _ => 4) AllVariables 63 3 = Ok 2 /\
+  resolution_unrepaired (fun _ _ => 3) AllVariables 64 3 = Ok 2.
+Proof. vm_compute. repeat split; reflexivity. Qed.
+Print Assumptions C18_root_correction_example.
 
-(* a whole export, computed: 2 inputs on [0,1] and [10,20], all variables = 5 (k = 2), floats *)
+(* the refutation hypothesis is inhabited: an oracle that is the integer root except at (64, 3) *)
+Example C18_unrepaired_refuted_example :
+  ~ unrepaired_largest_k (fun v n => if (v =? 64) && Nat.eqb n 3 then 3 else kroot v n).
+Proof. apply C18_unrepaired_refuted_if. reflexivity. Qed.
+Print Assumptions C18_unrepaired_refuted_example.
+
+(* a whole export, computed: 2 inputs on [0,1] and [10,20], all variables = 5 (k = 2, from a useless float root 0), floats *)
 Definition ex_fmt (x : float) : string :=
   if PrimFloat.eqb x 0 then "0" else if PrimFloat.eqb x 1 then "1" else
   if PrimFloat.eqb x 10 then "10" else if PrimFloat.eqb x 20 then "20" else
@@ -226,7 +245,7 @@ Definition ex_outputs (rows : list (list float)) : list (list float) :=
   map (fun r => [PrimFloat.add (nth 0 r 0%float) (nth 1 r 0%float)]) rows.
 Definition nl : string := String "010"%char "".
 Example C18_export_example :
-  @write_from_scope float (NumF true []) (fun v n => if v =? 5 then 2 else 0) ex_fmt ex_outputs
+  @write_from_scope float (NumF true []) (fun v n => 0) ex_fmt ex_outputs
      {| x_separator := ", "; x_headers := true; x_inputs := true; x_outputs := true |}
      ex_engine 5 AllVariables (fun _ => true)
   = Ok ("a, b, y" ++ nl ++ "0, 10, 10" ++ nl ++ "0, 20, 20" ++ nl ++ "1, 10, 11" ++ nl ++ "1, 20, 21" ++ nl)%string.
